@@ -57,13 +57,18 @@ CleanAcc(rest, acc, isAbs) ==
               ELSE CleanAcc(t, Append(acc, h), isAbs)
 
 \* Join(a, b...) = Clean(a ++ b); an absolute later element does not reset the path in Go's Join
-JoinClean(a, b) == CleanAcc(a \o b, <<>>, TRUE)
+\* two macro segments (Shape = "deep" only): "deep" = 64 harmless names in a row, "dd66" = 66 ".." in a row - a path
+\* that climbs out only after more components than a bounded scan of the path might look at
+RECURSIVE Expand(_)
+Expand(s) == IF s = <<>> THEN <<>>
+             ELSE (CASE Head(s) = "deep" -> [i \in 1..64 |-> "n"] [] Head(s) = "dd66" -> [i \in 1..66 |-> "dd"] [] OTHER -> <<Head(s)>>) \o Expand(Tail(s))
+JoinClean(a, b) == CleanAcc(Expand(a \o b), <<>>, TRUE)
 
 IsPrefix(p, q) == Len(p) <= Len(q) /\ SubSeq(q, 1, Len(p)) = p
 Below(target) == IsPrefix(Out, target)
 
 \* validateRelPath after fix de01a4b: no ".." segment under either separator, not absolute, not empty
-HasDotDotSegment(s) == \E i \in 1..Len(s) : s[i] \in {"dd", "bs"}
+HasDotDotSegment(s) == \E i \in 1..Len(s) : s[i] \in {"dd", "bs", "dd66"}
 TooLong(s) == \E i \in 1..Len(s) : s[i] = "long"
 ValidRel(s, isAbs) == ~HasDotDotSegment(s) /\ ~TooLong(s) /\ ~isAbs /\ s # <<>> /\ ~(Len(s) = 1 /\ s[1] = "e")
 \* an identifier / root name must be a single harmless name
@@ -102,7 +107,8 @@ Confined == ~Escapes
 
 Init ==
   /\ field \in Fields
-  /\ segs \in (IF Shape = "decoy"
+  /\ segs \in (IF Shape = "deep" THEN {<<"deep", "dd66", "n">>, <<"n", "deep", "dd66", "n">>, <<"deep", "dd66">>, <<"deep", "n">>} ELSE
+               IF Shape = "decoy"
                 THEN {<<f>> \o up \o <<"n">> : f \in {"n", "inner", "tdd", "pdd"}, up \in {<<"dd", "dd">>, <<"dd", "dd", "dd">>}}
                 ELSE UNION {[1..n -> Seg] : n \in 1..MaxLen})
   /\ abs \in BOOLEAN /\ noRoot \in BOOLEAN /\ resume \in BOOLEAN
